@@ -235,6 +235,24 @@ def invalidate (sp : Spec α) (i : Nat) : Spec α :=
 def resize (sp : Spec α) (c : Nat) : Spec α :=
   retain sp.stream c (sp.hi - sp.lo)
 
+/-- The samples `[lb, ub)` of the logical stream. -/
+def slice (sp : Spec α) (lb ub : Nat) : List α := (sp.stream.drop lb).take (ub - lb)
+
+/-- A range read: exactly the requested samples when the request lies inside the window,
+`IndexError` when it reaches outside. -/
+def read (sp : Spec α) (lb ub : Int) : Except Err (List α) :=
+  if lb < sp.lo ∨ (sp.hi : Int) < ub then .error .indexError else .ok (sp.slice lb.toNat ub.toNat)
+
+/-- Clip a sample number into the window `[lo, hi]`. -/
+def clip (sp : Spec α) (x : Int) : Nat := (min (max (sp.lo : Int) x) sp.hi).toNat
+
+/-- A filled read of `[a, b)`: `fill` for the requested samples before the window, the
+requested samples that are retained, `fill` for the requested samples after the window. -/
+def filled (sp : Spec α) (a b : Int) (fill : α) : List α :=
+  List.replicate (min (sp.lo : Int) b - a).toNat fill
+    ++ sp.slice (sp.clip a) (sp.clip b)
+    ++ List.replicate (b - max (sp.hi : Int) a).toNat fill
+
 def step (sp : Spec α) : Op α → Spec α
   | .append xs => sp.append xs
   | .invalidate i => sp.invalidate i
